@@ -1,0 +1,96 @@
+//go:build verif
+
+package mq
+
+// Ghost specification code for the contract verifier in /verif. Compiled
+// only with -tags verif; nothing here is reachable from the library.
+// Every function is loop-free and total so that the verifier can inline it.
+
+// specU16 is a big-endian two byte integer (MQTT 1.5.2).
+func specU16(hi, lo byte) uint16 { return uint16(hi)<<8 | uint16(lo) }
+
+// specU32 is a big-endian four byte integer (MQTT 1.5.3).
+func specU32(b0, b1, b2, b3 byte) uint32 {
+	return uint32(b0)<<24 | uint32(b1)<<16 | uint32(b2)<<8 | uint32(b3)
+}
+
+// specVbWidth is the number of bytes of the minimal variable byte integer
+// encoding (MQTT 1.5.5); values above 268 435 455 are not encodable in
+// MQTT, for them it describes the generic seven-bit-group encoding.
+func specVbWidth(v uint) int {
+	switch {
+	case v < 128:
+		return 1
+	case v < 16384:
+		return 2
+	case v < 2097152:
+		return 3
+	case v < 268435456:
+		return 4
+	case v < 34359738368:
+		return 5
+	case v < 4398046511104:
+		return 6
+	case v < 562949953421312:
+		return 7
+	case v < 72057594037927936:
+		return 8
+	case v < 9223372036854775808:
+		return 9
+	}
+	return 10
+}
+
+// specShr7 is v divided by 128^k, by cases (no symbolic shift).
+func specShr7(v uint, k int) uint {
+	switch k {
+	case 0:
+		return v
+	case 1:
+		return v / 128
+	case 2:
+		return v / 16384
+	case 3:
+		return v / 2097152
+	case 4:
+		return v / 268435456
+	case 5:
+		return v / 34359738368
+	case 6:
+		return v / 4398046511104
+	case 7:
+		return v / 562949953421312
+	case 8:
+		return v / 72057594037927936
+	case 9:
+		return v / 9223372036854775808
+	}
+	return 0
+}
+
+// specVbByte is byte k of the variable byte integer encoding of v: seven
+// bits per byte, least significant group first, continuation bit on all but
+// the last byte.
+func specVbByte(v uint, k int) byte {
+	g := specShr7(v, k)
+	b := byte(g % 128)
+	if g >= 128 {
+		b |= 128
+	}
+	return b
+}
+
+// specPow128 is 128^k for k in 0..4.
+func specPow128(k int) uint {
+	switch k {
+	case 0:
+		return 1
+	case 1:
+		return 128
+	case 2:
+		return 16384
+	case 3:
+		return 2097152
+	}
+	return 268435456
+}
